@@ -337,8 +337,8 @@ impl Property for C05 {
     }
     fn budget(&self, tier: Tier) -> u64 {
         match tier {
-            Tier::Quick => 300_000,
-            Tier::Thorough => 12_000_000,
+            Tier::Quick => 2_000_000,
+            Tier::Thorough => 30_000_000,
         }
     }
     fn generate(&self, seed: u64, run: u64, _tier: Tier, _avoid: &BTreeSet<String>) -> MacCase {
